@@ -23,6 +23,8 @@ thread_local! {
 static PROBE: std::sync::atomic::AtomicBool = std::sync::atomic::AtomicBool::new(false);
 /// seqno taken by the writer thread for its last write
 static LAST_W_SEQ: std::sync::atomic::AtomicU64 = std::sync::atomic::AtomicU64::new(0);
+/// the writer has allocated a seqno (step "alloc") that its next write uses
+static HAVE_SEQ: std::sync::atomic::AtomicBool = std::sync::atomic::AtomicBool::new(false);
 
 fn yield_handler(point: &'static str) {
     if point == "memtable:insert" && !PROBE.swap(false, std::sync::atomic::Ordering::AcqRel) {
@@ -55,6 +57,9 @@ pub fn run(args: &[String]) -> i32 {
         }
         let v: Value = serde_json::from_str(&line).expect("json");
         let sched = v["sched"].as_array().cloned().unwrap_or_default();
+        HAVE_SEQ.store(false, std::sync::atomic::Ordering::Release);
+        LAST_W_SEQ.store(0, std::sync::atomic::Ordering::Release);
+        PROBE.store(false, std::sync::atomic::Ordering::Release);
         let phys = Phys::from_index(v["phys"].as_u64().unwrap_or(0) as u32);
         let conc = Concretise { key_alpha: 0, val_alpha: 0 };
         let dir = std::path::PathBuf::from(&scratch).join(format!("s{ln}"));
@@ -82,7 +87,7 @@ pub fn run(args: &[String]) -> i32 {
         let mut cmd: std::collections::HashMap<String, Sender<Value>> = std::collections::HashMap::new();
         let mut cont: std::collections::HashMap<String, Sender<()>> = std::collections::HashMap::new();
         let mut handles = vec![];
-        for p in ["w", "f", "c", "k", "r"] {
+        for p in ["w", "f", "c", "k", "r", "d"] {
             let (ctx, crx) = channel::<Value>();
             let (gtx, grx) = channel::<()>();
             cmd.insert(p.to_string(), ctx);
@@ -102,8 +107,19 @@ pub fn run(args: &[String]) -> i32 {
                     }
                     let r = std::panic::catch_unwind(std::panic::AssertUnwindSafe(|| -> Result<(), String> {
                         match c["op"].as_str().unwrap_or("") {
-                            "write" => {
+                            "alloc" => {
+                                // the caller's `seqno.next()`, a step of its own
                                 let s = seq.next();
+                                LAST_W_SEQ.store(s, std::sync::atomic::Ordering::Release);
+                                HAVE_SEQ.store(true, std::sync::atomic::Ordering::Release);
+                                Ok(())
+                            }
+                            "write" => {
+                                let s = if HAVE_SEQ.swap(false, std::sync::atomic::Ordering::AcqRel) {
+                                    LAST_W_SEQ.load(std::sync::atomic::Ordering::Acquire)
+                                } else {
+                                    seq.next()
+                                };
                                 LAST_W_SEQ.store(s, std::sync::atomic::Ordering::Release);
                                 let k = conc.key(c["k"].as_i64().unwrap_or(1));
                                 if c["t"] == "V" {
@@ -124,6 +140,7 @@ pub fn run(args: &[String]) -> i32 {
                             }
                             "major" => tree.major_compact(u64::MAX, 0).map_err(|e| format!("err:{e:?}")),
                             "clear" => tree.clear().map_err(|e| format!("err:{e:?}")),
+                            "droprange" => tree.drop_range::<&[u8], _>(..).map_err(|e| format!("err:{e:?}")),
                             x => Err(format!("skip:unknown {x}")),
                         }
                     }));
@@ -144,7 +161,7 @@ pub fn run(args: &[String]) -> i32 {
             let step = stp["step"].as_str().unwrap_or("").to_string();
             let starts = matches!(
                 (p.as_str(), step.as_str()),
-                ("w", "write") | ("f", "rotate") | ("r", "rotate") | ("f", "collect") | ("c", "choose") | ("k", "clear")
+                ("w", "write") | ("w", "alloc") | ("f", "rotate") | ("r", "rotate") | ("f", "collect") | ("c", "choose") | ("k", "clear") | ("d", "droprange")
             );
             let mut absent = false;
             if p == "w" && step == "write" && stp["probe"].as_bool().unwrap_or(false) {
@@ -208,7 +225,8 @@ pub fn run(args: &[String]) -> i32 {
                         }
                     }
                 }
-                let sl = sess.lock().expect("lock");
+                let mut sl = sess.lock().expect("lock");
+                sl.extra_reads = vec![LAST_W_SEQ.load(std::sync::atomic::Ordering::Acquire) + 1];
                 let mut bad = false;
                 // every line of the probe carries the state / reads after the whole probe, so the
                 // write comes first: from there on the ghost expects it to be readable
@@ -235,9 +253,11 @@ pub fn run(args: &[String]) -> i32 {
             if starts {
                 let c = match step.as_str() {
                     "write" => json!({"op": "write", "k": stp["arg"]["k"], "t": stp["arg"]["t"], "v": stp["arg"]["v"]}),
+                    "alloc" => json!({"op": "alloc"}),
                     "rotate" => json!({"op": "rotate"}),
                     "collect" => json!({"op": "flush"}),
                     "choose" => json!({"op": "major"}),
+                    "droprange" => json!({"op": "droprange"}),
                     _ => json!({"op": "clear"}),
                 };
                 let _ = cmd[&p].send(c);
@@ -265,10 +285,15 @@ pub fn run(args: &[String]) -> i32 {
                 Ok((who, what)) => (format!("skip:unexpected event from {who}: {what}"), String::new()),
                 Err(_) => ("skip:stuck".to_string(), String::new()),
             } };
-            let s = sess.lock().expect("lock");
+            let mut s = sess.lock().expect("lock");
+            let ws = LAST_W_SEQ.load(std::sync::atomic::Ordering::Acquire);
+            if p == "w" && step == "write" && at == "done" {
+                // what the writer has published: reads at this snapshot must see the write
+                s.extra_reads = vec![ws + 1];
+            }
             let rk = ret.split(':').next().unwrap_or("").to_string();
             let rec = json!({"op": {"op": "cstep", "p": p, "step": step, "arg": stp["arg"], "at": at},
-                "ret": ret, "rk": rk, "ro": false, "info": {"s0": 0}, "st": s.project(), "obs": s.observe()});
+                "ret": ret, "rk": rk, "ro": false, "info": {"s0": 0, "s": ws}, "st": s.project(), "obs": s.observe()});
             writeln!(wr, "{rec}").expect("write");
             if rk == "skip" {
                 stuck += 1;
